@@ -198,6 +198,9 @@ def plan_for(tier):
         # a child that never touches the file forks a grandchild that does (parent reads concurrently)
         plan.append((Cfg("%s/idle-child-grandchild" % variant, variant, [2], {0: [0, 3], 1: [], 2: [4, 1]}, grandchild=(1, 2, 0)),
                      None if not q else 3))
+        # a child that HAS read (and so owns a handle of its own) forks a grandchild; both then read concurrently
+        plan.append((Cfg("%s/child-reads-then-forks" % variant, variant, [1], {0: [2], 1: [3, 4], 2: [0, 1]}, grandchild=(1, 2)),
+                     2 if q else 3))
         # a file with carriage returns inside its lines (and one CRLF ending)
         plan.append((Cfg("%s/2p-carriage-returns" % variant, variant, [0], {0: [2, 1], 1: [1, 3]}, cr=True), None if not q else 3))
         # parent + 2 children
